@@ -68,6 +68,25 @@ M = {
  'm11_arrow_child': [('yaql/standard_library/system.py',
    "    return right(left)",
    "    return right(left.parent or left)")],
+ # ---- round 4: names out of the implementation's own vocabulary, values the host language takes for equal
+ 'r4_let_context_param': [('yaql/standard_library/system.py',
+   "@specs.inject('__context__', yaqltypes.Context())\ndef let(__context__, *args, **kwargs):",
+   "@specs.inject('context', yaqltypes.Context())\ndef let(context, *args, **kwargs):"),
+   ('yaql/standard_library/system.py',
+   "    for i, value in enumerate(args, 1):\n        __context__[str(i)] = value\n\n    for key, value in kwargs.items():\n        __context__[key] = value\n    return __context__",
+   "    for i, value in enumerate(args, 1):\n        context[str(i)] = value\n\n    for key, value in kwargs.items():\n        context[key] = value\n    return context")],
+ 'r4_select_memo': [('yaql/standard_library/queries.py',
+   "    return map(selector, collection)\n",
+   "    seen = {}\n\n    def cached(item):\n        try:\n            return seen[item]\n        except KeyError:\n            seen[item] = selector(item)\n            return seen[item]\n        except TypeError:\n            return selector(item)\n    return map(cached, collection)\n")],
+ 'r4_def_last_call': [('yaql/standard_library/system.py',
+   "    def wrapper(*args, **kwargs):\n        return func(*args, **kwargs)",
+   "    last = []\n\n    def wrapper(*args, **kwargs):\n        if last and last[0] == (args, kwargs):\n            return last[1]\n        result = func(*args, **kwargs)\n        last[:] = [(args, kwargs), result]\n        return result")],
+ 'r4_intern_input': [('yaql/language/utils.py',
+   "        return map(lambda v: rec(v, rec), obj)\n    else:\n        return obj\n",
+   "        return map(lambda v: rec(v, rec), obj)\n    elif isinstance(obj, (int, float)):\n        return _INTERNED.setdefault(obj, obj)\n    else:\n        return obj\n\n\n_INTERNED = {}\n")],
+ 'r4_kwargs_via_format': [('yaql/language/yaqltypes.py',
+   "        for arg_name, arg_value in kwargs.items():\n            context['$' + arg_name] = arg_value",
+   "        for arg_name, arg_value in kwargs.items():\n            context['${name}'.format(name=arg_name, **kwargs)] = arg_value")],
 }
 import sys, subprocess, os
 def apply(name, root):
